@@ -99,6 +99,9 @@ def run(R):
             for h in hs:
                 if any(isinstance(x, ast.Assign) for x in ast.walk(h.ast)):
                     probs.append((f'the KeyError handler of the `{k}` step overwrites the setting', h.ast))
+                lps = [x for x in rc.cfg.nodes if x.kind == 'for' and any(y is n.ast for y in ast.walk(x.ast))]
+                if lps and not rc.cfg.path_exists(h, lps[0]):
+                    probs.append((f'a key missing from the `{k}` source aborts the whole step: the remaining keys are not read from it', h.ast))
     if probs:
         for (what, construct) in probs:
             R.fail('C20.ORD.1', inst, RC, construct if not isinstance(construct, ast.FunctionDef) else 'def read_client_conf', what, site(rc, construct))
@@ -155,7 +158,8 @@ def run(R):
 
     # ------------------------------------------------------------------ EXH.1
     df = ctx(R, 'ndn.client_conf.default_face')
-    dom = StrDomain(['unix', 'tcp', 'tcp4', 'tcp6', 'udp', 'udp4', 'udp6'])
+    dom = StrDomain(['unix', 'tcp', 'tcp4', 'tcp6', 'udp', 'udp4', 'udp6'],
+                    probes=['tcps', 'tcp5', 'tcp-tls', 'udplite', 'udp4+dtls', 'unixs', 'xunix', 'ws', 'http', ''])
     want = {'unix': 'UnixFace', 'tcp': 'TcpFace', 'tcp4': 'TcpFace', 'tcp6': 'TcpFace', 'udp': 'UdpFace', 'udp4': 'UdpFace', 'udp6': 'UdpFace'}
     var = 'scheme'
     srcs = [v for n in df.cfg.nodes for (nm, v) in df.cfg.defs_of(n) if nm == var]
@@ -174,9 +178,9 @@ def run(R):
         if df.cfg.falloff.id in reach:
             outs.add('<falls off: None>')
         inst = f'default_face :: scheme {v}'
-        if v == StrDomain.OTHER:
+        if v not in dom.legal:
             if outs or not rs:
-                R.fail('C20.EXH.1', inst, df.qual, 'def default_face', f'an unknown scheme yields {sorted(outs)} instead of raising', site(df, df.f.node))
+                R.fail('C20.EXH.1', inst, df.qual, 'def default_face', f'the unsupported scheme {v!r} yields {sorted(outs)} instead of being refused', site(df, df.f.node))
             else:
                 R.ok('C20.EXH.1', inst, site(df, rs[0].ast), 'raises')
         else:
@@ -228,14 +232,14 @@ def run(R):
     dk = ctx(R, 'ndn.client_conf.default_keychain')
     for var, vals, wantmap in (('tpm_scheme', ['tpm-file', 'tpm-osxkeychain', 'tpm-cng'], {'tpm-file': 'TpmFile', 'tpm-osxkeychain': 'TpmOsxKeychain', 'tpm-cng': 'TpmCng'}),
                                ('pib_scheme', ['pib-sqlite3'], {'pib-sqlite3': 'KeychainSqlite3'})):
-        dom = StrDomain(vals)
+        dom = StrDomain(vals, probes=[vals[0] + 'x', vals[0][:-1], ''])
         for v in dom.values:
             removed = pruned_edges(dk, var, dom, v)
             reach = dk.cfg.reachable(removed_edges=removed, follow_exc=False)
             built = {ast.unparse(n.ast.value.func) for n in dk.cfg.nodes if n.id in reach and n.kind == 'stmt' and isinstance(n.ast, ast.Assign)
                      and isinstance(n.ast.value, ast.Call) and ast.unparse(n.ast.value.func) in wantmap.values()}
             inst = f'default_keychain :: {var} {v}'
-            if v == StrDomain.OTHER:
+            if v not in dom.legal:
                 if dk.cfg.exit.id in reach:
                     R.fail('C20.EXH.1', inst, dk.qual, 'def default_keychain', f'an unknown {var} does not raise', site(dk, dk.f.node))
                 else:
@@ -284,6 +288,10 @@ def run(R):
         reach = rl.cfg.reachable(removed_edges=removed)
         if any(n.id in reach for n in joins + plats):
             probs.append(('an existing location can be replaced by a fallback', (joins + plats)[0].ast))
+        # ... and a location that exists once re-based on the configuration directory is kept
+        r2 = reach_from_succ(rl.cfg, joins[0], removed_edges=removed, follow_exc=False)
+        if any(n.id in r2 for n in plats):
+            probs.append(('a location found relative to the configuration file is replaced by the platform default (existence is not re-checked)', plats[0].ast))
         # the platform default is tried only after the file-relative attempt
         if not all(rl.cfg.path_exists(joins[0], p) for p in plats):
             probs.append(('platform default is not a fallback of the file-relative location', plats[0].ast))
